@@ -137,10 +137,13 @@ theorem takeN_ok (n : Nat) (bs a r : Bytes) (h : takeN n bs = .ok (a, r)) :
 /-- One `Read` worth of behaviour of the underlying reader.  `data bs eof`: the
     reader has `bs` available now; when the last of them is handed out the call
     also reports end-of-stream iff `eof`.  `fail`: the reader returns an error
-    (persistently). -/
+    (persistently).  `dataErr bs`: the reader has `bs` available and the call that hands out
+    the last of them also reports an error that is not end-of-stream — once: the reader goes
+    on with what follows, as if nothing had happened. -/
 inductive Chunk where
   | data (bs : Bytes) (eof : Bool)
   | fail
+  | dataErr (bs : Bytes)
   deriving Repr, DecidableEq
 
 abbrev Stream := List Chunk
@@ -152,6 +155,11 @@ def readN : Nat → Stream → Bytes → Res (Bytes × Stream)
     match s with
     | [] => if acc.length = 0 then .error .eof else .error .err   -- (0, EOF)
     | .fail :: _ => .error .err
+    | .dataErr bs :: rest =>
+      -- an error that is not EOF ends the loop, whatever came with it (`size += read` first, then the
+      -- last branch); a call that asks for less than is there gets its bytes and no error yet
+      if need < bs.length then .ok (acc ++ bs.take need, .dataErr (bs.drop need) :: rest)
+      else .error .err
     | .data bs e :: rest =>
       if bs.length = 0 then
         -- (0, nil) is "no progress"; (0, EOF) is EOF when nothing was read so far
@@ -168,6 +176,7 @@ def readN : Nat → Stream → Bytes → Res (Bytes × Stream)
 def flat : Stream → Bytes
   | [] => []
   | .fail :: _ => []
+  | .dataErr _ :: _ => []
   | .data bs e :: rest => if e then bs else bs ++ flat rest
 
 /-- well-formed fragmentation: non-empty data chunks, no failure, EOF flag (if
@@ -175,6 +184,7 @@ def flat : Stream → Bytes
 def WFStream : Stream → Prop
   | [] => True
   | .fail :: _ => False
+  | .dataErr _ :: _ => False
   | .data bs e :: rest => bs ≠ [] ∧ (e = true → rest = []) ∧ WFStream rest
 
 theorem readN_chunks (need : Nat) (s : Stream) (acc : Bytes) (hwf : WFStream s)
@@ -188,6 +198,7 @@ theorem readN_chunks (need : Nat) (s : Stream) (acc : Bytes) (hwf : WFStream s)
   | cons c rest ih =>
     cases c with
     | fail => exact absurd hwf (by simp [WFStream])
+    | dataErr bs => exact absurd hwf (by simp [WFStream])
     | data bs e =>
       obtain ⟨hne, hlast, hrest⟩ := hwf
       have hpos : bs.length ≠ 0 := by
@@ -244,6 +255,7 @@ theorem readN_short (need : Nat) (s : Stream) (acc : Bytes) (hwf : WFStream s)
   | cons c rest ih =>
     cases c with
     | fail => exact absurd hwf (by simp [WFStream])
+    | dataErr bs => exact absurd hwf (by simp [WFStream])
     | data bs e =>
       obtain ⟨hne, hlast, hrest⟩ := hwf
       have hpos : bs.length ≠ 0 := by
